@@ -26,6 +26,8 @@ pub struct RunOpts {
   pub pure_history: bool,
   pub idempotence_probe: bool,
   pub c03_probe: bool,
+  /// Crash-point runs: after the injected panic, require the same roots again through the same, still open pie session.
+  pub retry_same_session: bool,
   pub fresh_pie: bool,
   pub seed: u64,
   pub case_no: u64,
@@ -86,10 +88,18 @@ impl<'a> CaseRunner<'a> {
   }
 
   fn raise(&mut self, fd: &Finding, rec: &SessionRec, what: &str) {
-    if (fd.sig.starts_with("K2-") || fd.sig.starts_with("K4-")) && !self.known_as_alarm {
+    if (fd.sig.starts_with("K2-") || fd.sig.starts_with("K4-") || fd.sig.starts_with("K5-")) && !self.known_as_alarm {
       if fd.prop == self.opts.which { self.rep.known_hit(&fd.sig); }
       return;
     }
+    // C19: once a build on this instance has aborted, what the other properties' monitors find afterwards - a result
+    // that differs from the from-scratch one, an abort without an existing violation, a store that differs from the
+    // declared dependencies - is what C19 forbids (stale-edge aborts, finding K3, stay with C20).
+    let relabelled;
+    let fd = if self.opts.which == "C19" && self.any_abort && matches!(fd.prop, "C01" | "C08" | "C20") && !fd.sig.starts_with("K") {
+      relabelled = Finding { prop: "C19", sig: format!("after-abort:{}", fd.sig), msg: fd.msg.clone(), at: fd.at };
+      &relabelled
+    } else { fd };
     if fd.prop != self.opts.which {
       self.rep.count(&format!("findings_attributed_to_{}", fd.prop));
       if std::env::var_os("PV_SHOW_OTHER").is_some() { eprintln!("OTHER {} {} [{} case {} step {} {}] {}", fd.prop, fd.sig, self.opts.class, self.opts.case_no, self.step_no, what, fd.msg); }
@@ -151,6 +161,7 @@ impl<'a> CaseRunner<'a> {
       for e in &rec.events { if let Ev::WriterSet { res, .. } = e { self.drv.pending.insert(*res); } }
     }
     if let Some(msg) = &rec.aborted {
+      let aborted_before = self.any_abort;
       self.any_abort = true;
       self.rep.count("aborts");
       let kind = abort_kind(msg);
@@ -166,7 +177,13 @@ impl<'a> CaseRunner<'a> {
       if self.opts.wellformed && kind == "overlapping-write" {
         fs.push(Finding { prop: "C06", sig: "false-overlap-in-well-formed-program".into(), msg: format!("a program in which every resource has exactly one writing task aborted with an overlapping-write error (re-execution of the same writer must never be reported as an overlap): {}", msg), at });
       }
-      if self.opts.wellformed && kind != "injected-panic" && kind != "user-panic" {
+      if self.opts.wellformed && kind == "hidden-dependency" && aborted_before && self.path_through_aborted_task(rec, msg) {
+        // finding K5 (C19): the execution of a task on the only require path between a reader and the generator was
+        // aborted by an earlier build; its dependencies are gone, and the generator's next write (or the reader's next
+        // read) is diagnosed as a hidden dependency although the tasks contain none
+        fs.push(Finding { prop: "C19", sig: "K5-legality-path-through-aborted-task".into(), at,
+          msg: format!("after an aborted build a later build aborts for a violation that does not exist: the only require path between the reader and the writer named here runs through a task whose execution was aborted (its dependencies were dropped when it started) and that has not run since: {}", msg) });
+      } else if self.opts.wellformed && kind != "injected-panic" && kind != "user-panic" {
         fs.push(Finding { prop: "C20", sig: format!("abort-in-well-formed-program:{}", kind), msg: format!("a program that contains no violation in any state aborted: {}", msg), at });
       }
       if self.opts.injected && matches!(kind, "cycle" | "hidden-dependency" | "overlapping-write") {
@@ -293,6 +310,13 @@ impl<'a> CaseRunner<'a> {
         Ev::ExecStart { task } => {
           if sh.tasks[*task as usize].status == Status::Completed {
             let just = (0..i).rev().map(|j| &rec.events[j]).find(|e| !matches!(e, Ev::Trk(_)));
+            // a checker that fails (armed fault) makes its owner inconsistent by design (C18): not staleness
+            if matches!(just, Some(Ev::Check { owner, verdict: Verdict::Err(_), .. }) if owner == task) {
+              self.rep.count("executions_after_bottom_up_justified_by_a_failing_checker");
+              stack.push(*task);
+              sh.apply(e);
+              continue;
+            }
             let k1 = match just {
               Some(Ev::OCheck { owner, target, consistent: false, .. }) if owner == task => self.tainted.contains(target) || explained.contains(target),
               Some(Ev::Check { owner, res, verdict: Verdict::Inconsistent, .. }) if owner == task => !self.ext_dirty.contains(res) && self.tainted_res.contains(res),
@@ -323,10 +347,24 @@ impl<'a> CaseRunner<'a> {
     }
   }
 
-  /// C20: pie aborted with a diagnosis. If a from-scratch build of all known tasks in the current state runs into the
-  /// same kind of violation, fine. Otherwise the abort must be explained by a stale edge (finding K3): the other task
-  /// named in the message was not executed in this session and, evaluated from scratch in the current state, does
-  /// not create the edge. Anything else is a violation.
+  /// K5 classifier (well-formed programs): pie diagnosed a hidden dependency between reader X and writer W. True iff
+  /// from scratch X reaches W through some task P (or P = W's requirer chain member) that, at the moment of the abort,
+  /// is still in the state an earlier aborted execution left it in, and the declared dependencies hold no path X ~> W.
+  fn path_through_aborted_task(&mut self, rec: &SessionRec, msg: &str) -> bool {
+    let (_res, tasks) = parse_abort(msg);
+    if tasks.len() < 2 { return false; }
+    let (x, w) = if abort_in_read(&rec.events) { (tasks[0], tasks[1]) } else { (tasks[1], tasks[0]) };
+    let mut sh = rec.shadow_before.clone();
+    for e in &rec.events { if matches!(e, Ev::Abort { .. }) { break; } sh.apply(e); }
+    if sh.reaches(x, w) { return false; }
+    let p = self.prog.clone();
+    let mut r = RefRun::new(&p, &rec.pre_world);
+    let known: Vec<u32> = self.drv.shadow.known.iter().copied().collect();
+    for t in &known { r.eval(*t); }
+    if r.viol.is_some() || !r.reaches(x, w) { return false; }
+    (0..p.n_tasks() as u32).any(|t| t != x && sh.tasks[t as usize].status == Status::Partial && r.reaches(x, t) && (t == w || r.reaches(t, w)))
+  }
+
   /// Maintains `order_tainted` from what pie actually did in this session; returns whether a task that was tainted
   /// before this session is still tainted (not re-executed) - then the session may have reused it.
   fn update_order_taint(&mut self, rec: &SessionRec) -> bool {
@@ -354,6 +392,10 @@ impl<'a> CaseRunner<'a> {
     carried
   }
 
+  /// C20: pie aborted with a diagnosis. If a from-scratch build of all known tasks in the current state runs into the
+  /// same kind of violation, fine. Otherwise the abort must be explained by a stale edge (finding K3): the other task
+  /// named in the message was not executed in this session and, evaluated from scratch in the current state, does
+  /// not create the edge. Anything else is a violation.
   fn classify_abort(&mut self, rec: &SessionRec, msg: &str, kind: &'static str) -> Option<Finding> {
     if !self.order_tainted.is_empty() {
       // (update_order_taint has not run yet for this session: any member may be reused by it)
@@ -507,12 +549,27 @@ impl<'a> CaseRunner<'a> {
         Step::PanicAt(k) => { crate::cell::FAULTS.with(|f| f.borrow_mut().panic_at = Some(*k)); }
         Step::PanicAtAny(k) => { crate::cell::FAULTS.with(|f| { let mut f = f.borrow_mut(); f.panic_at = Some(*k); f.crash_in_user_code = true; }); }
         Step::TopDown(roots) => {
-          let rec = self.drv.session(None, roots);
+          let retry = self.opts.retry_same_session && crate::cell::FAULTS.with(|f| f.borrow().panic_at.is_some());
+          let (rec, retry_rec) = if retry { self.drv.session_with_retry(None, roots) } else { (self.drv.session(None, roots), None) };
           let fs = self.analyze(&rec, "top-down session", true);
           for fd in &fs { self.raise(fd, &rec, "top-down session"); }
           self.nontrivial(&rec, 0);
           crate::cell::FAULTS.with(|f| { let mut f = f.borrow_mut(); f.panic_at = None; f.crash_in_user_code = false; });
-          if let Some(m) = &rec.aborted { if self.opts.wellformed && abort_kind(m) != "injected-panic" { return Outcome { aborted: true }; } continue; }
+          if let Some(m) = &rec.aborted { if self.opts.wellformed && abort_kind(m) != "injected-panic" { return Outcome { aborted: true }; } if retry_rec.is_none() { continue; } }
+          // the panic was caught inside the pie session and the roots were required again through the same Session
+          // object: from here on that second part is "the session"
+          let rec = match retry_rec {
+            Some(r2) => {
+              let fs = self.analyze(&r2, "same-session retry after the abort", true);
+              for fd in &fs { self.raise(fd, &r2, "same-session retry after the abort"); }
+              self.nontrivial(&r2, 0);
+              self.rep.count("same_session_retries_after_abort");
+              if r2.aborted.is_none() { self.rep.count("same_session_retries_that_returned"); }
+              if let Some(m) = &r2.aborted { if self.opts.wellformed && abort_kind(m) != "injected-panic" { return Outcome { aborted: true }; } continue; }
+              r2
+            }
+            None => rec,
+          };
           let known: BTreeSet<u32> = self.drv.shadow.known.clone();
           if known.iter().all(|k| roots.contains(k)) {
             self.drv.pending.clear();
@@ -576,7 +633,11 @@ impl<'a> CaseRunner<'a> {
           if self.opts.c03_probe {
             let mut all: Vec<u32> = self.drv.shadow.known.iter().copied().collect();
             self.rng.shuffle(&mut all);
+            // the probe runs with every armed checker fault switched off: a task whose failing check was ignored by the
+            // bottom-up build must show up as out of date, not as "re-executed because its checker fails again"
+            let armed_saved = crate::cell::FAULTS.with(|f| std::mem::take(&mut f.borrow_mut().armed_checks));
             let probe = self.drv.session(None, &all);
+            crate::cell::FAULTS.with(|f| f.borrow_mut().armed_checks = armed_saved);
             let mut fsp = self.analyze(&probe, "post-bottom-up probe (require every known task)", true);
             let mut explained: BTreeSet<u32> = BTreeSet::new();
             // the top-down requires issued in the bottom-up session after the update are "afterwards" too
